@@ -31,6 +31,25 @@ fn guard<T>(f: impl FnOnce() -> T) -> Result<T, ()> {
 // ------------------------------------------------------------------------------------ C13
 fn veh_event(b: [u8; 4]) -> Value {
     let r = guard(|| Vehicle::read_le(&mut Cursor::new(&b[..])));
+    // the four bytes are the value however the reader hands them over (1, 2 or 3 bytes per read() call), and the next value in
+    // the stream is still in step; a different outcome is reported as a result the specification never allows
+    for k in 1..=3usize {
+        let mut two = b.to_vec();
+        two.extend_from_slice(&b);
+        let mut rd = Chunked { data: &two, pos: 0, k };
+        let r1 = guard(|| Vehicle::read_le(&mut rd));
+        let r2 = guard(|| Vehicle::read_le(&mut rd));
+        fn cls<E>(x: &Result<Result<Vehicle, E>, ()>) -> Option<Option<Vehicle>> {
+            match x {
+                Err(()) => None,
+                Ok(Err(_)) => Some(None),
+                Ok(Ok(v)) => Some(Some(v.clone())),
+            }
+        }
+        if cls(&r1) != cls(&r) || (matches!(r, Ok(Ok(_))) && cls(&r2) != cls(&r)) {
+            return json!({"ev": "VehRead", "bytes": b, "res": "differs-with-short-reads"});
+        }
+    }
     match r {
         Err(()) => json!({"ev": "VehRead", "bytes": b, "res": "panic"}),
         Ok(Err(_)) => json!({"ev": "VehRead", "bytes": b, "res": "err"}),
